@@ -58,6 +58,8 @@ NoG == [n |-> 0, i |-> 0]
 \* dret continuation of decrement_refcnt, claimed its result, nx / hd for the free list, tmp the internal guard of free_list::pop
 L0 == [op |-> "none", g |-> 0, c |-> 0, q |-> 0, fresh |-> 0, old |-> 0, oc |-> 0, nc |-> 0, ret |-> "idle", dret |-> "idle", dn |-> 0, claimed |-> FALSE,
        nx |-> 0, hd |-> 0, tmp |-> 0, rret |-> "idle", rn |-> 0]
+\* operations per thread (a definition the configurations may override: asymmetric programs keep weak-memory runs small)
+OpsOf(t) == MaxOps
 Init == /\ MemInit
         /\ pc = [t \in Threads |-> "idle"]
         /\ loc = [t \in Threads |-> L0]
@@ -65,7 +67,7 @@ Init == /\ MemInit
         /\ lfl = [t \in Threads |-> <<>>]
         /\ nstate = [n \in Nodes |-> IF n <= NCells THEN "live" ELSE "free"]
         /\ inc = [n \in Nodes |-> 0]
-        /\ budget = [t \in Threads |-> MaxOps]
+        /\ budget = [t \in Threads |-> OpsOf(t)]
         /\ bad = "ok"
         /\ last = [t |-> -1, k |-> "init", lab |-> "init", v |-> 0, ok |-> 1, n |-> 0]
 
